@@ -142,7 +142,10 @@ def page_letter(k: int) -> str:
 
 
 # ------------------------------------------------------------------------ writer
-def build(nodes, attrs, spell=lambda i, k: 0, contents: bool = True) -> bytes:
+RECT_SIZE = (16, 4)  # filled rectangle drawn with its lower-left corner at the page's glyph point (rect=True)
+
+
+def build(nodes, attrs, spell=lambda i, k: 0, contents: bool = True, rect: bool = False) -> bytes:
     """Serialise.  spell(i, key) -> 0 direct value, 1 the value is an indirect object, 2 the parts of the value are
     indirect objects (array elements / the /Font sub-dictionary; Rotate: indirect)."""
     d = Doc()
@@ -194,6 +197,8 @@ def build(nodes, attrs, spell=lambda i, k: 0, contents: bool = True) -> bytes:
             X, Y = page_point(k)
             if contents:
                 body = b"BT /F1 8 Tf 1 0 0 1 %d %d Tm (%s) Tj ET" % (X, Y, page_letter(k).encode())
+                if rect:
+                    body += b" %d %d %d %d re f" % (X, Y, RECT_SIZE[0], RECT_SIZE[1])
                 d.add(Stream({}, body), num=CONTENT_BASE + i)
                 obj["Contents"] = Ref(CONTENT_BASE + i)
         for k2 in INHERITABLE:
@@ -203,3 +208,13 @@ def build(nodes, attrs, spell=lambda i, k: 0, contents: bool = True) -> bytes:
         d.add(obj, num=NODE_BASE + i)
     d.add({"Type": N("Catalog"), "Pages": Ref(NODE_BASE)}, num=CATALOG)
     return d.write(Ref(CATALOG))
+
+
+def rect_bbox(matrix, size=RECT_SIZE):
+    """Bounding box, in the page coordinate system, of the rectangle [X Y w h] given the matrix
+    (a, b, c, d, e, f) that maps user space to the page coordinate system with (X, Y) -> (e, f)."""
+    a, b, c, d, e, f = matrix
+    w, h = size
+    xs = [e + a * dx + c * dy for dx in (0, w) for dy in (0, h)]
+    ys = [f + b * dx + d * dy for dx in (0, w) for dy in (0, h)]
+    return (min(xs), min(ys), max(xs), max(ys))
